@@ -107,6 +107,14 @@ AnnJoin(flags, n, acc) ==
                              ELSE (IF acc = "" THEN "" ELSE acc \o ",") \o Keys[n] \o "=" \o v)
 AnnStr(flags) == AnnJoin(flags, 1, "")
 
+\* the maps behind the canonical strings that occur (used by (D) to mirror the key-by-key comparison of
+\* descriptor.Equal)
+AnnPairs ==
+  ("" :> {}) @@ ("a=1" :> {<<"a", "1">>}) @@ ("a=2" :> {<<"a", "2">>}) @@ ("a=3" :> {<<"a", "3">>}) @@
+  ("a=1,b=2" :> {<<"a", "1">>, <<"b", "2">>}) @@ ("b=" :> {<<"b", "">>}) @@
+  ("org.example.keep=1" :> {<<"org.example.keep", "1">>}) @@
+  ("vnd.docker.reference.type=attestation-manifest" :> {<<"vnd.docker.reference.type", "attestation-manifest">>})
+
 ----------------------------------------------------------------------------
 (* the pool of manifests.  kind image: a manifest with a config blob (cplat: the platform the      *)
 (* config states, "" when it states none - artifacts, attestations) and one layer; kind index: an  *)
